@@ -52,7 +52,7 @@ def build(ctx):
     app = mod('app', mod('outfmt', mod('model', "use crate::portfolio::render::RenderTable;\n" + om.text())) + mod('approot', app_use + "use crate::app::outfmt::model::{AcbWriter, OutputType};\n" + ar.text()))
     ustubs = open(os.path.join(os.path.dirname(os.path.dirname(os.path.abspath(__file__))), 'shim', 'util_stubs.rs')).read()
     render_use = "use crate::portfolio::{CumulativeCapitalGains, TxDelta};\nuse crate::portfolio::bookkeeping::Costs;\n"
-    head = shim('base', 'std').replace('verus! {\n/// Trusted contracts for std', fxu.MACROS + 'verus! {\n/// Trusted contracts for std', 1)
+    head = drvu.with_csv_stubs(shim('base', 'std').replace('verus! {\n/// Trusted contracts for std', fxu.MACROS + 'verus! {\n/// Trusted contracts for std', 1))
     return (head + "verus! {\n"
             + bk.assemble(p, extra_util=ustubs, extra_bookkeeping=mod('costs', c.text()) + "pub use self::costs::*;\n",
                           extra_portfolio=mod('io', mod('tx_loader', f['txl']) + drvu.tx_csv_part(ctx)) + o['mods']
